@@ -331,7 +331,10 @@ package p9
 //@   ghost set $lasterr:error = result0
 //@   requires[C05] @not-closed own(recv) != 3
 //@   maypanic
+// Lock may block for as long as another client holds the lock: it is called
+// with no path-tree lock held (a blocked Tlock must delay nobody)
 //@ interface File.Lock
+//@   requires[C06,C16] @may-block-so-no-lock-is-held nolocks()
 //@   ghost set $lasterr:error = result1
 //@   requires[C05] @not-closed own(recv) != 3
 //@   maypanic
@@ -857,7 +860,7 @@ package p9
 //@ func (*tread).handle
 //@   use handlerBase dirOpRows localLocks
 //@   at (*sync.Pool).Get assume typeis(ret0, *[]byte) && unbox(ret0, *[]byte) != nil && len(*unbox(ret0, *[]byte)) == int(cs.messageSize) && gm("$pooled", arr(*unbox(ret0, *[]byte))) == 0
-//@   ensures[C18] @reply-buffer-not-back-in-pool typeis(result, *rreadServerPayloader) ==> gm("$pooled", arr(unbox(result, *rreadServerPayloader).fullBuffer)) == 0
+//@   ensures[C11,C18] @reply-buffer-not-back-in-pool typeis(result, *rreadServerPayloader) ==> gm("$pooled", arr(unbox(result, *rreadServerPayloader).fullBuffer)) == 0
 //@   requires[C13] @msize-admits-a-reply-frame 11 <= cs.messageSize && cs.messageSize <= maximumLength
 //@   ensures[C06] @reply-type typeis(result, *rreadServerPayloader) || typeis(result, *rlerror)
 //@   ensures[C04] @unbound-fid-ebadf !old(has(cs.fids, t.fid)) ==> isErr(result, linux.EBADF) && nocalls()
@@ -1178,7 +1181,7 @@ package p9
 // allocated; no message is returned together with an error.
 //@ func recv
 //@   use transportFrame
-//@   modifies $consumed, $drained, $ncalls, $n.*, $gm.pooled, arrays(error), arrays([]byte), type:ConnError, type:ErrMessageTooLarge
+//@   modifies $consumed, $drained, $limit, $eof, $ncalls, $n.*, $gm.pooled, arrays(error), arrays([]byte), type:ConnError, type:ErrMessageTooLarge
 //@   ghost set $ret.tag:tag = result0
 //@   allocbound[C02] int(msize)
 //@   at (*sync.Pool).Get assume typeis(ret0, *[]byte) && unbox(ret0, *[]byte) != nil
@@ -1195,6 +1198,7 @@ package p9
 //@   at message.decode requires[C02,C18] @decode-sees-only-this-frame len(dataBuf.data) <= int(remaining)
 //@   at message.decode requires[C02,C18] @decodes-only-a-completely-read-body ncalls("(Buffers).ReadFrom") == 1 || remaining == 0
 //@   ensures[C02,C06] @message-iff-no-error (result2 == nil) == (result1 != nil)
+//@   local_ensures[C02,C17] @skipped-frame-is-drained-to-its-declared-end ncalls("lookup") == 1 && result2 != nil && !typeis(result2, ConnError) ==> ghost("$consumed", int) == old(ghost("$consumed", int)) + int(size) || ghost("$eof", bool)
 //@   local_ensures[C02,C17] @accepted-frame-consumes-exactly-its-declared-size result2 == nil ==> ghost("$consumed", int) == old(ghost("$consumed", int)) + int(size)
 //@   ensures[C02] @tiny-or-oversized-frame-ends-connection ncalls("lookup") == 0 ==> typeis(result2, ConnError) && 0 <= ghost("$consumed", int) - old(ghost("$consumed", int)) && ghost("$consumed", int) - old(ghost("$consumed", int)) <= 7 && ncalls("io.LimitReader") == 0 && ncalls("(Buffers).ReadFrom") == 0
 //@   ensures[C02] @never-drains-twice ncalls("io.LimitReader") <= 1 && ncalls("(Buffers).ReadFrom") <= 1 && ncalls("io.LimitReader") + ncalls("(Buffers).ReadFrom") <= 1
@@ -2057,8 +2061,8 @@ package p9
 //@   ensures[C12] @failure-yields-no-client result1 != nil ==> result0 == nil
 //@   loop 0 invariant[C12,C13] c != nil && c.messageSize > msgDotLRegistry.largestFixedSize && c.version == highestSupportedVersion
 //@   loop 0 invariant[C12,C13] msgDotLRegistry.largestFixedSize >= 23 && msgDotLRegistry.largestFixedSize < 4096
-//@   loop 1 invariant[C12,C13] c != nil && c.messageSize > msgDotLRegistry.largestFixedSize && c.payloadSize >= 1 && c.payloadSize <= c.messageSize - msgDotLRegistry.largestFixedSize
-//@   loop 1 invariant[C12,C13] msgDotLRegistry.largestFixedSize >= 23 && msgDotLRegistry.largestFixedSize < 4096 && requested <= highestSupportedVersion
+//@   loop 1 invariant[C11,C12,C13] c != nil && c.messageSize > msgDotLRegistry.largestFixedSize && c.payloadSize >= 1 && c.payloadSize <= c.messageSize - msgDotLRegistry.largestFixedSize
+//@   loop 1 invariant[C11,C12,C13] msgDotLRegistry.largestFixedSize >= 23 && msgDotLRegistry.largestFixedSize < 4096 && requested <= highestSupportedVersion
 //@   loop 1 decreases[C12] int(requested)
 
 //@ func (*clientFile).xattrWalkRead
